@@ -16,6 +16,7 @@ var localListens = []string{
 	"localhost", "[::ffff:127.0.0.1]:2019", "[::ffff:0.0.0.0]:2019", "[fe80::1]:2019", "LOCALHOST:2019", "::1",
 	"example.com:80", "0.0.0.0", "[2001:db8::1]:2019", "127.0.0.1:65535",
 	"localhost:02019", " TCP /localhost:2019", "Unix//run/x.sock", "tcp/:0", "[::1]", "tcp6/[::1]:2019", "localhost:2019-2019",
+	"[::ffff:127.0.0.1]:2019", "[0:0:0:0:0:0:0:0]:2019", "[::%eth0]:2019", "[::1%eth0]:2019", "127.0.0.01:2019", "127.1:2019", "[::0]:2019", "0.0.0.0.0:2019",
 	"FD/5", "unix//run/c.sock|0600", "udp/:53", "[localhost]:2019", "127.0.0.1:0", "localhost:0", ":0",
 }
 
@@ -407,6 +408,9 @@ func (p *prop) Generate(rng *core.Rand, tier string, emit func(string)) {
 		}
 		if i%5 == 0 {
 			emit(genURL(rng))
+		}
+		if i%10 == 0 {
+			emit(genIP(rng))
 		}
 	}
 }
